@@ -372,7 +372,7 @@ impl<T> Mutex<T> {
     }
     pub fn lock(&self) -> Result<MutexGuard<'_, T>, ()> {
         let m = me();
-        if m == NONE || self.id == NONE {
+        if m == NONE || self.id == NONE || std::thread::panicking() {
             return Ok(MutexGuard { m: self, g: Some(self.inner.lock().unwrap_or_else(|e| e.into_inner())), controlled: false });
         }
         let mut g = lock_s();
@@ -580,7 +580,8 @@ impl AtomicUsize {
     }
     fn point(&self, op: &'static str, new: usize) {
         let m = me();
-        if m == NONE {
+        if m == NONE || std::thread::panicking() {
+            // (a thread that is being unwound at the end of a run must not take part in scheduling)
             return;
         }
         let mut g = lock_s();
